@@ -45,6 +45,10 @@ def configs(force=True):
     out.append(dict(BASE, scheduler="ltf", psll=80.0))
     out.append(dict(BASE, scheduler="ltf", Kdes=16))
     out.append(dict(BASE, scheduler="ltf", fs=250.0))
+    # a band-limited analysis followed by the unrestricted one with the same scheduler (a plan object shared between calls
+    # and trimmed in place shows here)
+    out.append(dict(BASE, scheduler="ltf", band=(0.2, 0.8)))
+    out.append(dict(BASE, scheduler="new_ltf", band=(0.2, 0.8)))
     if not force:
         return out
     out.append(dict(FORCE_BASE))
